@@ -45,6 +45,10 @@ pub enum Op {
     CloseAccount { u: u16 },
     Freeze { u: u16, on: bool },
     Pulse { u: u16 },
+    /// emissions: step 0 = the emissions admin sets emissions up on bank b (flags 1 borrow / 2 lending / 3 both
+    /// from val % 3 + 1, rate 10^(6 + 3 (val / 3 % 3)) per whole token per year, 10^12 funded), 1 = user u claims
+    /// (withdraw_emissions to its own token account), 2 = anyone settles user u's emissions in bank b
+    Emissions { b: u16, u: u16, step: u8, val: u8 },
 }
 
 impl Op {
@@ -77,6 +81,7 @@ impl Op {
             Op::CloseAccount { .. } => "close_account",
             Op::Freeze { .. } => "freeze",
             Op::Pulse { .. } => "pulse",
+            Op::Emissions { .. } => "emissions",
         }
     }
 }
@@ -159,6 +164,7 @@ pub fn op_strategy() -> impl Strategy<Value = Op> {
         1 => i().prop_map(|u| Op::CloseAccount { u }),
         1 => (i(), any::<bool>()).prop_map(|(u, on)| Op::Freeze { u, on }),
         1 => i().prop_map(|u| Op::Pulse { u }),
+        3 => (i(), i(), prop_oneof![3 => Just(0u8), 2 => Just(1u8), 1 => Just(2u8)], any::<u8>()).prop_map(|(b, u, step, val)| Op::Emissions { b, u, step, val }),
     ]
 }
 
@@ -811,6 +817,38 @@ impl Runner {
                 st.macct = Some(usr.accts[0]);
                 st.ixs = vec![self.w.ix_pulse_health(usr.accts[0])];
             }
+            Op::Emissions { b, u, step, val } => {
+                let mut bi = idx(*b, nb);
+                let (_mint, funding) = self.w.ensure_emissions_fixtures();
+                if *step != 0 {
+                    // prefer a bank that has emissions switched on
+                    let c: Vec<usize> = (0..nb).filter(|i| self.snap.banks.get(&self.w.banks[*i].key).map(|x| x.flags & 3 != 0).unwrap_or(false)).collect();
+                    if !c.is_empty() {
+                        bi = c[idx(*b, c.len())];
+                    }
+                }
+                st.bank = Some(bi);
+                match step {
+                    0 => {
+                        let flags = (*val % 3) as u64 + 1;
+                        let rate = 10u64.pow(6 + 3 * ((*val / 3) % 3) as u32);
+                        st.ixs = vec![self.w.ix_setup_emissions(bi, funding, flags, rate, 1_000_000_000_000)];
+                    }
+                    _ => {
+                        let key = self.w.banks[bi].key;
+                        let ui = self.pick_user(*u, |p| p.bank == key);
+                        let usr = self.w.users[ui].clone();
+                        st.user = Some(ui);
+                        st.macct = Some(usr.accts[0]);
+                        if *step == 1 {
+                            let dst = self.w.emissions_destination(usr.auth, ui as u64);
+                            st.ixs = vec![self.w.ix_withdraw_emissions(usr.accts[0], usr.auth, bi, dst)];
+                        } else {
+                            st.ixs = vec![self.w.ix_settle_emissions(usr.accts[0], bi)];
+                        }
+                    }
+                }
+            }
         }
         let pre_tok = token_watch.map(|k| self.w.tok(&k));
         st.pre_vm = Some(self.w.vm.clone());
@@ -1075,7 +1113,8 @@ pub fn decode_case(data: &[u8]) -> (WorldSpec, Vec<Op>) {
                 Op::Flash { u: r.u16(), b: r.u16(), amt, rel, repay: r.bool() }
             }
             29 => Op::Configure { b: r.u16(), kind: r.u8() % 5, val: match r.u8() % 4 { 0 => 0, 1 => 1, 2 => u64::MAX, _ => r.u64() >> (r.u8() % 50) } },
-            30 => match r.u8() % 4 {
+            30 => match r.u8() % 5 {
+                4 => Op::Emissions { b: r.u16(), u: r.u16(), step: r.u8() % 3, val: r.u8() },
                 3 => Op::Sunset { b: r.u16(), u: r.u16(), step: r.u8() % 4 },
                 0 => Op::Transfer { u: r.u16() },
                 1 => Op::CloseAccount { u: r.u16() },
